@@ -28,7 +28,10 @@ TECHNIQUE = "exhaustive target-state menu vs. directly constructed state vectors
 LEVEL_TEXT = ("11 state-preparation templates on 1-3 qubits (thorough: 4): every basis state, all sign patterns, all zero patterns, all "
               "two-state superpositions with 4 relative phases, generic complex states, padding/normalisation/sparse inputs, MPS with "
               "bond dimension <= 2 (4), all bitstrings; prepared state compared with the target on default.qubit and through every "
-              "decomposition rule expanded recursively to closed-form gates, auxiliary wires required to return to |0>.")
+              "decomposition rule expanded recursively to closed-form gates, auxiliary wires required to return to |0>. SumOfSlaters compressing "
+              "encoding: every labelled tree of 7 determinants joined by single-bit flips over 6 bits (quick: a fixed quarter; thorough: 3 roots x 4 bit "
+              "assignments) and a family of 8-determinant trees through select_sos_rows + compute_sos_encoding (codes distinct, b = U bits, register sizes), "
+              "plus 6-wire instances on the device.")
 LEVEL_NOTE = ("Reference = numpy vectors built from the docstring formulas; QROMStatePreparation is compared with the state obtained from "
               "angles truncated to the given number of precision bits (its documented approximation), on targets whose angles are not "
               "within 1e-6 of a truncation boundary. Global phase is ignored only where documented. lightning.tensor (native MPSPrep) "
